@@ -531,8 +531,13 @@ func (rw *resetWalker) walk(stmts []ast.Stmt, env map[types.Object]binding, c ct
 			} else if escapes(s) {
 				c.cond = true // what follows is not reached on every path
 			}
-		case *ast.SwitchStmt, *ast.TypeSwitchStmt, *ast.SelectStmt:
+		case *ast.SwitchStmt, *ast.TypeSwitchStmt, *ast.SelectStmt, *ast.BlockStmt, *ast.LabeledStmt:
 			if escapes(s) {
+				c.cond = true
+			}
+		case *ast.RangeStmt, *ast.ForStmt:
+			// break and continue stay inside the loop; a return, a goto or a labelled branch may not
+			if leavesLoop(s) {
 				c.cond = true
 			}
 		case *ast.BranchStmt, *ast.ReturnStmt:
@@ -540,6 +545,25 @@ func (rw *resetWalker) walk(stmts []ast.Stmt, env map[types.Object]binding, c ct
 		}
 	}
 	return c
+}
+
+// leavesLoop: does the loop contain a return, a goto or a labelled break / continue (outside function literals)?
+func leavesLoop(s ast.Stmt) bool {
+	found := false
+	ast.Inspect(s, func(n ast.Node) bool {
+		switch x := n.(type) {
+		case *ast.FuncLit:
+			return false
+		case *ast.ReturnStmt:
+			found = true
+		case *ast.BranchStmt:
+			if x.Tok == token.GOTO || x.Label != nil {
+				found = true
+			}
+		}
+		return !found
+	})
+	return found
 }
 
 func copyEnv(env map[types.Object]binding) map[types.Object]binding {
